@@ -85,7 +85,7 @@ class Differ:
 
         Returns:  N/A
         """
-        if isinstance(data, CommentedMap):
+        if isinstance(data, CommentedMap) and len(data) > 0:
             lhs_iteration = -1
             for key, val in data.items():
                 lhs_iteration += 1
@@ -95,14 +95,14 @@ class Differ:
                     DiffEntry(
                         DiffActions.DELETE, next_path, val, None,
                         lhs_parent=data, lhs_iteration=lhs_iteration))
-        elif isinstance(data, CommentedSeq):
+        elif isinstance(data, CommentedSeq) and len(data) > 0:
             for idx, ele in enumerate(data):
                 next_path = path + "[{}]".format(idx)
                 self._diffs.append(
                     DiffEntry(
                         DiffActions.DELETE, next_path, ele, None,
                         lhs_parent=data, lhs_iteration=idx))
-        elif isinstance(data, CommentedSet):
+        elif isinstance(data, CommentedSet) and len(data) > 0:
             for idx, ele in enumerate(data):
                 next_path = (path +
                     YAMLPath.escape_path_section(ele, path.separator))
@@ -111,10 +111,9 @@ class Differ:
                         DiffActions.DELETE, next_path, ele, None,
                         lhs_parent=data, lhs_iteration=idx))
         else:
-            if data is not None:
-                self._diffs.append(
-                    DiffEntry(DiffActions.DELETE, path, data, None)
-                )
+            self._diffs.append(
+                DiffEntry(DiffActions.DELETE, path, data, None)
+            )
 
     def _add_everything(self, path: YAMLPath, data: Any) -> None:
         """
@@ -126,7 +125,7 @@ class Differ:
 
         Returns:  N/A
         """
-        if isinstance(data, CommentedMap):
+        if isinstance(data, CommentedMap) and len(data) > 0:
             rhs_iteration = -1
             for key, val in data.items():
                 rhs_iteration += 1
@@ -136,14 +135,14 @@ class Differ:
                     DiffEntry(
                         DiffActions.ADD, next_path, None, val,
                         rhs_parent=data, rhs_iteration=rhs_iteration))
-        elif isinstance(data, CommentedSeq):
+        elif isinstance(data, CommentedSeq) and len(data) > 0:
             for idx, ele in enumerate(data):
                 next_path = path + "[{}]".format(idx)
                 self._diffs.append(
                     DiffEntry(
                         DiffActions.ADD, next_path, None, ele,
                         rhs_parent=data, rhs_iteration=idx))
-        elif isinstance(data, CommentedSet):
+        elif isinstance(data, CommentedSet) and len(data) > 0:
             for idx, ele in enumerate(data):
                 next_path = (path +
                     YAMLPath.escape_path_section(ele, path.separator))
@@ -152,10 +151,9 @@ class Differ:
                         DiffActions.ADD, next_path, None, ele,
                         rhs_parent=data, rhs_iteration=idx))
         else:
-            if data is not None:
-                self._diffs.append(
-                    DiffEntry(DiffActions.ADD, path, None, data)
-                )
+            self._diffs.append(
+                DiffEntry(DiffActions.ADD, path, None, data)
+            )
 
     def _diff_scalars(
         self, path: YAMLPath, lhs: Any, rhs: Any, **kwargs
